@@ -152,6 +152,32 @@ theorem quota_plan_le_excess (w : World) (i : Nat) (newMax : ORes) (pre : Res) (
     ∀ k v, (k, v) ∈ pre → ∃ mx m, newMax = some mx ∧ (k, m) ∈ mx ∧ v ≤ (quotaUsed w i).getD k - m ∧ m < (quotaUsed w i).getD k :=
   quotaPreemptable_le_excess w i newMax pre h
 
+/-- QUOTA PREEMPTION, a victim released in the meantime. `sel` are the selected victims (`quotaSelect` of every leaf that
+    takes part), `late` the allocations released (placeholder replaced / timed out: SetReleased(true)) after
+    filterAllocations listed them and before preemptVictims marks its victims; `quotaPreemptLate` is the marking loop as
+    written (MarkPreempted; a released victim is skipped). For every world with well-formed resource vectors, every
+    `late`, every selection, every queue `i` and every resource type `k`:
+    preempting(after) = preempting(before) + Σ sizes of the victims of the subtree of `i` marked by this operation
+    (`newlyMarked`: named by `quotaMarked` and not marked before) - nothing is booked for a victim that is not marked. -/
+theorem quota_preempting_equals_marked (w : World) (hres : ∀ a ∈ w.allocs, wf a.res = true) (late sel : List String)
+    (i : Nat) (k : String) :
+    (preemptingOf { w with allocs := quotaPreemptLate w late sel } i).getD k =
+      (preemptingOf w i).getD k +
+      (sumRes ((newlyMarked w (quotaMarked (releaseLate late w.allocs) sel) i).map (·.res))).getD k :=
+  quotaPreemptLate_preempting w hres late sel i k
+
+/-- ... and the victims the loop marks are exactly the selected victims that are not released at that moment: a victim
+    released in the meantime is never marked, and nothing else changes (the allocations afterwards are those left by
+    the late releases with the flag set on the marked victims). -/
+theorem quota_released_victim_never_marked (w : World) (late sel : List String) :
+    (∀ k ∈ quotaMarked (releaseLate late w.allocs) sel, k ∈ sel ∧ isReleased (releaseLate late w.allocs) k = false) ∧
+    (∀ k ∈ sel, isReleased (releaseLate late w.allocs) k = false → k ∈ quotaMarked (releaseLate late w.allocs) sel) ∧
+    quotaPreemptLate w late sel =
+      markMap (quotaMarked (releaseLate late w.allocs) sel) true (releaseLate late w.allocs) := by
+  refine ⟨fun k hk => quotaMarked_mem hk, fun k hk hr => ?_, quotaPreemptLate_eq w late sel⟩
+  unfold quotaMarked
+  exact List.mem_filter.mpr ⟨hk, by rw [hr]; rfl⟩
+
 /-- Whatever order the candidates are tried in (the sort key is float valued), the resources claimed from a leaf never
     exceed the amount planned for the leaf on any type of the plan, every victim fits the plan on the types it defines,
     and the claimed total is the sum of the selected victims. -/
@@ -224,5 +250,22 @@ example : commitCovers { witness with ask := mkAsk 1 [("cpu", 10)] } false = tru
     (tryPreemptionNoPlugin { witness with ask := mkAsk 1 [("cpu", 10)] } false).isSome = true := by decide
 /-- a negative remaining entry and its witness queue -/
 example : remaining (askInfo witness) (allSnaps witness) "root.b" = some [("cpu", -11), ("mem", -9)] := by decide
+
+/-- quota marking world: leaf root.b holds v1, v2 of cpu 4; planned cpu 8 selects both -/
+def qmWorld : World :=
+  { queues := [mkQueue "root" none false none, mkQueue "root.b" (some 0) true none],
+    nodes := [{ id := "n0", cap := [("cpu", 12)], avail := [("cpu", 4)], sched := true }],
+    allocs := [mkAlloc "v1" 1 0 [("cpu", 4)] 2, mkAlloc "v2" 1 0 [("cpu", 4)] 4],
+    ask := mkAsk 1 [("cpu", 1)] }
+example : (quotaSelect [("cpu", 8)] qmWorld.allocs).1.map (·.key) = ["v1", "v2"] := by decide
+/-- undisturbed both are marked and booked: preempting of root.b and of root is cpu 8 -/
+example : markedKeys (quotaPreemptLate qmWorld [] ["v1", "v2"]) = ["v1", "v2"] ∧
+    preemptingOf { qmWorld with allocs := quotaPreemptLate qmWorld [] ["v1", "v2"] } 1 = [("cpu", 8)] ∧
+    preemptingOf { qmWorld with allocs := quotaPreemptLate qmWorld [] ["v1", "v2"] } 0 = [("cpu", 8)] := by decide
+/-- v2 released after the filtering: skipped - only v1 is marked, only v1 is booked -/
+example : quotaMarked (releaseLate ["v2"] qmWorld.allocs) ["v1", "v2"] = ["v1"] ∧
+    markedKeys (quotaPreemptLate qmWorld ["v2"] ["v1", "v2"]) = ["v1"] ∧
+    preemptingOf { qmWorld with allocs := quotaPreemptLate qmWorld ["v2"] ["v1", "v2"] } 1 = [("cpu", 4)] ∧
+    (newlyMarked qmWorld ["v1"] 0).map (·.key) = ["v1"] := by decide
 
 end Yk.C08
